@@ -255,6 +255,10 @@ func (fd *Client) DescribeTableWithContext(ctx aws.Context, input *dynamodb.Desc
 
 // PutItem mock response for dynamodb
 func (fd *Client) PutItem(input *dynamodb.PutItemInput) (*dynamodb.PutItemOutput, error) {
+	if ferr := fd.failureErr(); ferr != nil {
+		return nil, ferr
+	}
+
 	err := input.Validate()
 	if err != nil {
 		return nil, err
@@ -291,6 +295,10 @@ func (fd *Client) PutItemWithContext(ctx aws.Context, input *dynamodb.PutItemInp
 
 // DeleteItem mock response for dynamodb
 func (fd *Client) DeleteItem(input *dynamodb.DeleteItemInput) (*dynamodb.DeleteItemOutput, error) {
+	if ferr := fd.failureErr(); ferr != nil {
+		return nil, ferr
+	}
+
 	err := input.Validate()
 	if err != nil {
 		return nil, err
@@ -334,6 +342,10 @@ func (fd *Client) DeleteItemWithContext(ctx aws.Context, input *dynamodb.DeleteI
 
 // UpdateItem mock response for dynamodb
 func (fd *Client) UpdateItem(input *dynamodb.UpdateItemInput) (*dynamodb.UpdateItemOutput, error) {
+	if ferr := fd.failureErr(); ferr != nil {
+		return nil, ferr
+	}
+
 	err := input.Validate()
 	if err != nil {
 		return nil, err
@@ -379,6 +391,10 @@ func (fd *Client) UpdateItemWithContext(ctx aws.Context, input *dynamodb.UpdateI
 
 // GetItem mock response for dynamodb
 func (fd *Client) GetItem(input *dynamodb.GetItemInput) (*dynamodb.GetItemOutput, error) {
+	if ferr := fd.failureErr(); ferr != nil {
+		return nil, ferr
+	}
+
 	err := input.Validate()
 	if err != nil {
 		return nil, err
